@@ -1,1 +1,3 @@
--- modules of work area Sys (add imports here)
+import AM.Model.Dedup
+import AM.Model.Group
+import AM.Props.C04
